@@ -81,15 +81,31 @@ CLAIMS = {
         "Variables with an accept-anything validator or without converter/detyper have no defined value domain and are skipped; LC_* skipped; PATHEXT compared case-insensitively and abs_path after abspath (normalisation is the type); defaults are not exported.",
         "DESIGN.md §3 C10",
     ),
+    "C14": (
+        "exploration",
+        "exhaustive enumeration of history-file collections x units x limit boundary values x force through the real GC on real files, against a reference selection",
+        "gramx",
+        "Every collection of up to 4 (thorough 5) history files (command counts 0-3, lock flag, corrupt members, all equal-timestamp patterns, stale-lock boot positions) x unit {files, commands, s, b} x every boundary value of the limit x force is pushed through the real JsonHistory.run_gc on real files written with the real writer (virtual clock/boot time), plus every truncation of a genuine file, 1184 spellings of the limit and all SQLite tables of <= 5 rows x keep 0..6; survivors are compared with a 25-line reference derived from the statement.",
+        "Ties between equal timestamps, the exact-age boundary and the refusal-equality boundary are accepted either way; one synchronous collector, no concurrent directory changes; limits >= 0.",
+        "DESIGN.md §3 C14",
+    ),
+    "C06": (
+        "model_checking",
+        "stateless preemption-bounded exploration of the real reader / proxy / pipeline threads under a controlled scheduler over real pipes",
+        "pysched",
+        "All schedules with <= 2 (thorough 3) preemptions of closed harnesses over the real classes: T1 = scripted writer + real NonBlockingFDReader/populate_fd_queue thread + consumer using the real read paths in the iterraw/_read_all patterns, for chunkings around the 1024-byte read size; T2 = the real capture path ($(A), !(A), A | B) with threaded callable-alias stages. The bytes delivered must equal the bytes written, once and in order, the return code must be the final stage's, and no schedule may deadlock, livelock or raise.",
+        "Line-level atomicity; payloads below one pipe buffer; os.read / queue.get / time.sleep / locks of the modules under test are cooperative shims (pipes and threads are real); external processes are not single-stepped (see DESIGN §4).",
+        "DESIGN.md §3 C06",
+    ),
 }
 
 NOT_YET = "check not built yet (work in progress in this round; see DESIGN.md §3 for the planned exploration)"
 
 ENGINES = [
     {"name": "crashx", "path": "xv/crashx.py", "serves_properties": ["C13"], "kind_free_text": "records the file-operation log of a write history through shims bound into the module under test, then enumerates every crash point, torn write and failing call in forked children; strace syscall injection for libsqlite3"},
-    {"name": "pysched", "path": "xv/pysched.py", "serves_properties": ["C11", "C12"], "kind_free_text": "stateless preemption-bounded exploration of real CPython threads: baton scheduler, line-event scheduling points in named functions, cooperative Lock/Condition/sleep/join shims, DFS over choice prefixes with replay-divergence detection"},
+    {"name": "pysched", "path": "xv/pysched.py", "serves_properties": ["C06", "C11", "C12"], "kind_free_text": "stateless preemption-bounded exploration of real CPython threads: baton scheduler, line-event scheduling points in named functions, cooperative Lock/Condition/sleep/join shims, DFS over choice prefixes with replay-divergence detection"},
     {"name": "seqx", "path": "xv/seqx.py", "serves_properties": ["C10", "C11", "C12", "C16", "C20"], "kind_free_text": "explicit-state breadth-first search whose transitions call the real entry points on a freshly replayed implementation; canonical state hashing; lock-step reference"},
-    {"name": "gramx", "path": "xv/", "serves_properties": ["C04", "C07", "C15"], "kind_free_text": "bounded-exhaustive enumeration of structured inputs run through the real implementation, compared with a reference"},
+    {"name": "gramx", "path": "xv/", "serves_properties": ["C04", "C07", "C14", "C15"], "kind_free_text": "bounded-exhaustive enumeration of structured inputs run through the real implementation, compared with a reference"},
 ]
 
 
